@@ -36,7 +36,10 @@ def gen_case(rng, tier):
     nkeys = rng.choice([1, 2, 3])
     progs = []
     pool = rng.random() < 0.5          # values repeat (A writes v, B writes w, A writes v again)
-    vals = ['v0', 'v1', 'v2'] if rng.random() < 0.6 else rng.sample(list(FALSY), 2) + ['v2']
+    r0 = rng.random()
+    vals = ['v0', 'v1', 'v2'] if r0 < 0.5 else \
+        rng.sample(['z:0', 'z:e', 'z:f', 'z:l'], 2) + ['v2'] if r0 < 0.75 else \
+        list(rng.choice(EQUAL_TRIPLES))
 
     def pv():
         return vals[rng.randrange(3)]
@@ -100,7 +103,10 @@ LONGKEYS = [_P + 'a' * 10, _P + 'b' * 10, _P, _P[:200]]
 
 
 # value tokens 'z:...' stand for FALSY Python values (the register must hold them like any other)
-FALSY = {'z:0': 0, 'z:e': '', 'z:f': False, 'z:l': []}
+FALSY = {'z:0': 0, 'z:e': '', 'z:f': False, 'z:l': [],
+         # values that compare EQUAL to one another but are different values (type)
+         'z:0f': 0.0, 'z:1': 1, 'z:t': True, 'z:1f': 1.0}
+EQUAL_TRIPLES = [['z:0', 'z:f', 'z:0f'], ['z:1', 'z:t', 'z:1f']]
 
 
 def real(tok):
